@@ -322,6 +322,14 @@ pub fn cmd_pipe(v: &Value) -> Value {
         match solver.as_str() {
             "auto" => pipes.push(Box::new(AutoSolverPipe::new())),
             "milp" => pipes.push(Box::new(MILPSolverPipe::new())),
+            // the continuous chains: Clarabel behind the RealSolver pipe, and the teaching chain
+            // standard form -> tableau -> step-by-step simplex
+            "real" => pipes.push(Box::new(RealSolver::new())),
+            "steps" => {
+                pipes.push(Box::new(StandardLinearModelPipe::new()));
+                pipes.push(Box::new(TableauPipe::new()));
+                pipes.push(Box::new(StepByStepSimplexPipe::new()));
+            }
             _ => {}
         }
         let runner = PipeRunner::new(pipes);
@@ -337,6 +345,13 @@ pub fn cmd_pipe(v: &Value) -> Value {
                 PipeableData::Model(m) => out["model"] = model_json(&m),
                 PipeableData::LinearModel(l) => out["lin"] = json!({"ok": lm_json(&l)}),
                 PipeableData::MILPSolution(s) => out["solve"] = sol_json(Ok(s)),
+                PipeableData::RealSolution(s) => out["solve"] = sol_json(Ok(s)),
+                PipeableData::OptimalTableauWithSteps(t) => {
+                    // the value in the user's terms, as the pipe's consumer reads it
+                    let sol = t.result().as_lp_solution();
+                    out["solve"] = json!({"ok": true, "value": f(sol.value()), "steps": t.steps().len(),
+                        "x": sol.assignment().iter().map(|a| json!([a.name, f(a.value), "r"])).collect::<Vec<_>>()});
+                }
                 _ => {}
             }
         }
@@ -346,6 +361,7 @@ pub fn cmd_pipe(v: &Value) -> Value {
                 PipeError::LinearizationError(le) => {
                     json!({"ok": false, "kind": "Linearization", "msg": le.to_string()})
                 }
+                PipeError::StepByStepSimplexError(se, _) => json!({"ok": false, "kind": format!("{:?}", se), "msg": se.to_string()}),
                 other => json!({"ok": false, "kind": "Other", "msg": other.to_string()}),
             };
         }
